@@ -138,11 +138,16 @@ mod verif_kani_agent {
         let from = SocketAddr::new(IpAddr::V4(Ipv4Addr::new(10, 0, 0, 1)), 1);
         let to = SocketAddr::new(IpAddr::V4(Ipv4Addr::new(10, 0, 0, 2)), 2);
         let base = base_instant();
-        let sched = any_schedule();
+        // bounded: schedules of exactly 2 symbolic entries (the unbounded statement is the Verus contract of poll, which mentions
+        // instants only through differences; this harness cross-checks it on the real Timespec arithmetic)
+        let e0: u64 = kani::any();
+        let e1: u64 = kani::any();
+        kani::assume(e0 <= 60_000 * 256 && e1 <= 60_000 * 256);
+        let sched = vec![e0, e1];
         let lrt: u64 = kani::any();
         kani::assume(lrt <= 60_000 * 512);
         let ti: usize = kani::any();
-        kani::assume(ti <= 9);
+        kani::assume(ti <= 3);
         let has_last: bool = kani::any();
         let last_off: u32 = kani::any();
         let now_off: u32 = kani::any();
